@@ -68,3 +68,10 @@ CORPUS += [
       also=[(L, "                responses.append(await self._read())", "                responses.append(await self._read(timeout=self._response_timeout))"),
             (L, "    def _disconnect(self) -> None:", "    def set_response_timeout(self, seconds: float) -> None:\n        self._response_timeout = seconds\n\n    def _disconnect(self) -> None:")]),
 ]
+# round 10: growth that reads more of a packet
+CORPUS += [
+    M("error-reason-decoded-strictly", "msmart/lan.py", '            raise ProtocolError("Error packet received.")',
+      '            reason = packet[8:].tobytes().rstrip(b"\\x00")\n            raise ProtocolError("Error packet received: " + reason.decode("ascii"))'),
+    M("n-error-reason-as-hex", "msmart/lan.py", '            raise ProtocolError("Error packet received.")',
+      '            reason = packet[8:].tobytes().rstrip(b"\\x00")\n            raise ProtocolError("Error packet received: " + reason.hex())', "S"),
+]
